@@ -219,6 +219,7 @@ def main():
   for j in jobs:
     by_ob.setdefault(j['ob'], []).append((j, results[j['id']]))
   violations = []
+  unreplayed = []
   retried = []
   harness_errors = []
   inconclusive = []
@@ -234,6 +235,7 @@ def main():
     ob_paths = 0
     ob_cpu = 0.0
     ob_max = 0.0
+    reproduced_here = 0
     for j, r in rows:
       ob_cpu += r.get('wall_s', 0.0) or 0.0
       ob_max = max(ob_max, r.get('wall_s', 0.0) or 0.0)
@@ -254,7 +256,14 @@ def main():
       if r['status'] == 'refuted':
         path = write_replay(pid, mname, ob.name, tier, r['cex']['args'],
                             r['cex']['why'])
+        if ob.expect == 'hold' and reproduced_here >= 3:
+          # enough replayed violations for this obligation: further candidates are
+          # stored (replayable with --replay) but not re-run now
+          unreplayed.append((ob.name, path))
+          continue
         rc, out = replay_file(path)
+        if rc == 1 and ob.expect == 'hold':
+          reproduced_here += 1
         if ob.expect == 'refute':
           if rc != 1:
             harness_errors.append('%s: expected-refuted obligation did not replay '
@@ -355,6 +364,9 @@ def main():
     print('INCONCLUSIVE', s)
   for s in harness_errors:
     print('HARNESS-ERROR', s)
+  if unreplayed:
+    print('NOTE %d further candidate counterexamples stored without replay (first: '
+          '%s)' % (len(unreplayed), unreplayed[0][1]))
   for name, path, cex in violations:
     print('counterexample %s: %r\n  %s' % (name, cex['args'], cex['why'][:1500]))
     print('VIOLATION property=%s replay=%s' % (pid, path))
